@@ -276,6 +276,7 @@ pub fn migrate(clock: Arc<uhlc::HLC>, conn: &mut Connection) -> rusqlite::Result
     let migrations: Vec<Box<dyn Migration>> = vec![
         Box::new(init_migration as fn(&Transaction) -> rusqlite::Result<()>),
         Box::new(crsqlite_v0_17_migration(clock)),
+        Box::new(buffered_changes_val_affinity_migration as fn(&Transaction) -> rusqlite::Result<()>),
     ];
 
     crate::sqlite::migrate(conn, migrations)
@@ -364,6 +365,38 @@ fn init_migration(tx: &Transaction) -> rusqlite::Result<()> {
     )?;
 
     Ok(())
+}
+
+// `val ANY` has NUMERIC affinity in a non-STRICT table: a TEXT value that looks
+// like a number ('0786', '1.0', '1e3') was stored as a number while it waited in
+// the buffer and reached the replicated table changed. Values must be kept as is.
+fn buffered_changes_val_affinity_migration(tx: &Transaction) -> rusqlite::Result<()> {
+    tx.execute_batch(
+        r#"
+            CREATE TABLE __corro_buffered_changes_new (
+                "table" TEXT NOT NULL,
+                pk BLOB NOT NULL,
+                cid TEXT NOT NULL,
+                val, -- no declared type: no affinity, the value keeps its storage class
+                col_version INTEGER NOT NULL,
+                db_version INTEGER NOT NULL,
+                site_id BLOB NOT NULL,
+                seq INTEGER NOT NULL,
+                cl INTEGER NOT NULL,
+                ts TEXT NOT NULL,
+
+                PRIMARY KEY (site_id, db_version, seq)
+            ) WITHOUT ROWID;
+
+            INSERT INTO __corro_buffered_changes_new
+                ("table", pk, cid, val, col_version, db_version, site_id, seq, cl, ts)
+                SELECT "table", pk, cid, val, col_version, db_version, site_id, seq, cl, ts
+                    FROM __corro_buffered_changes;
+
+            DROP TABLE __corro_buffered_changes;
+            ALTER TABLE __corro_buffered_changes_new RENAME TO __corro_buffered_changes;
+        "#,
+    )
 }
 
 // since crsqlite 0.17, ts is now stored as TEXT in clock tables
